@@ -503,6 +503,8 @@ pub struct DmlCfg {
     pub key_updates: bool,
     /// allow column-level REFERENCES clauses
     pub inline_fk: bool,
+    /// allow ON DELETE/UPDATE SET NULL on a NOT NULL child column (the action can then only fail)
+    pub setnull_on_notnull: bool,
 }
 
 const WORDS: &[&str] = &["a", "b", "ab", "", "A", "c"];
@@ -559,9 +561,13 @@ pub fn gen_specs(t: &mut Tape, c: &DmlCfg) -> Vec<TSpec> {
                 let cands: Vec<usize> = (1..ncols).filter(|&k| s.cols[k].1 == pspec_cols[pcol].1 && !s.pk.contains(&k)).collect();
                 if !cands.is_empty() {
                     let col = cands[t.below(cands.len())];
-                    let act = |t: &mut Tape| *t.pick(&[FkAction::Cascade, FkAction::SetNull, FkAction::Restrict, FkAction::NoAction]);
+                    let act = |t: &mut Tape| *t.pick(&[FkAction::Cascade, FkAction::SetNull, FkAction::NoAction, FkAction::NoAction]);
                     let inline = c.inline_fk && t.chance(1, 4);
-                    s.fks.push(Fk { col, parent, pcol, on_delete: act(t), on_update: act(t), inline });
+                    let (od, ou) = (act(t), act(t));
+                    if !c.setnull_on_notnull && (od == FkAction::SetNull || ou == FkAction::SetNull) {
+                        s.not_null[col] = false;
+                    }
+                    s.fks.push(Fk { col, parent, pcol, on_delete: od, on_update: ou, inline });
                 }
             }
         }
